@@ -22,7 +22,7 @@ func init() {
 	register(&Driver{
 		ID:        "C15",
 		Technique: "exhaustive enumeration of source-configuration histories: all sequences of <=3 option steps (SetConfigLoader / AddConfigLoader / SetConfig(file) / Configure.AddLoaders) x loader kind (raw, file, command-line args) x six key trees, each a real start; reference model = deep merge of the individually parsed loader outputs in the container's loader sequence",
-		Rule:      "steps = {set, add, add-file, add-direct} x {raw, file, args} x 6 documents with overlapping and disjoint keys (nested map c.d / c.e, scalars a, b); all sequences of length <=3 (thorough: +length 4 over a reduced document set); plus <=3 loaders handed over in one option with the same option used for two consecutive starts; observed through App.Get of every path of the union tree and a prefix-bound struct; non-trivial = >=2 effective sources",
+		Rule:      "steps = {set, add, add-file, add-direct} x {raw, file, args} x 6 documents with overlapping and disjoint keys (nested map c.d / c.e, scalars a, b); all sequences of length <=3 (thorough: +length 4 over a reduced document set); plus <=3 loaders handed over in one option with the same option used for two consecutive starts; observed through App.Get of every path of the union tree and a prefix-bound struct; non-trivial = >=2 effective sources. Families added in later rounds (look-ups inside Init, retries after an abandoned attempt, user extension points at every Order, several containers, odd names / types / values) are listed per part in this file and described in MANIFEST.json (level_claimed.text) and DESIGN §7",
 		Assumptions: []string{
 			"SetConfigLoader legitimately replaces earlier sources (it sets); every other option adds",
 			"two file loaders have equal rank: for a key both supply either value is accepted",
